@@ -208,7 +208,13 @@ def build(env, kind, guards, start_upper_outer=False, capture=None, pre=None, pf
         for r in eq.regions.values():
             r.getRegridded = (lambda rr: (lambda **k: rr))(r)
         with patched((meshm, "MeshRegion", StubRegion)):
-            mesh = meshm.BoutMesh(eq, settings)
+            try:
+                mesh = meshm.BoutMesh(eq, settings)
+            except ValueError as e:
+                if "same set of x-grid sizes" in str(e):
+                    # sizes for which the real code refuses to build a logically rectangular grid: outside every claim made on the built mesh
+                    raise core.PathAbort("refused: radial sizes of the regions do not match")
+                raise
     fn, info = topo_slice()
     t = fn(mesh, None)
     return eq, mesh, t, sym
@@ -425,6 +431,57 @@ def build_torpex(env, guards):
     return eq, mesh, t, sym
 
 
+def _mk_xpoint_markers(kind, psi_sign=1.0):
+    """region descriptors: the X-point that a region end touches is marked at the radial boundary whose psi is that X-point's separatrix value, and
+    nowhere else (the marker decides which cell corner is pinned to the X-point and which four blocks share it)"""
+    def body(env):
+        captured = {}
+        eq, mesh, t, sym = build(env, kind, 0, False, capture=captured, psi_sign=psi_sign)
+        env.witness("descriptor_built")
+        segs = captured["segments"]
+        parent = {"upper_pf2": "upper_pf", "lower_pf2": "lower_pf"}
+        lowx = [p for p in eq.x_points if p.Z < 0]
+        upx = [p for p in eq.x_points if p.Z > 0]
+
+        def sep_psi(xp):
+            # a connected double null grids both X-points on the first separatrix
+            return eq.psi_sep[0] if kind == "cdn" else eq.psi_sep[[q is xp for q in eq.x_points].index(True)]
+
+        for rname, reg in captured["regions"].items():
+            names = reg["segments"]
+            nseg = len(names)
+            # psi at the radial boundaries 1..nseg-1 (None where one gridded segment is merely split in two)
+            bpsi = [None] * (nseg + 1)
+            for k in range(1, nseg):
+                a, b = names[k - 1], names[k]
+                bpsi[k] = None if parent.get(b) == a else segs[parent.get(a, a)]["psi_end"]
+            first, last = reg["kind"].split(".")
+            # which X-point each end touches (standard ordering: y runs from the inner lower target clockwise)
+            if "lower_divertor" in rname:
+                ends = {"start": lowx[0] if first == "X" else None, "end": lowx[0] if last == "X" else None}
+            elif "upper_divertor" in rname:
+                ends = {"start": upx[0] if first == "X" else None, "end": upx[0] if last == "X" else None}
+            elif rname == "inner_core":
+                ends = {"start": lowx[0], "end": upx[0]}
+            elif rname == "outer_core":
+                ends = {"start": upx[0], "end": lowx[0]}
+            else:  # single null core
+                ends = {"start": eq.x_points[0], "end": eq.x_points[0]}
+            for end, xp in ends.items():
+                markers = reg.get("xpoints_at_" + end)
+                if xp is None:
+                    env.claim("wall_end_has_no_xpoint_marker:%s" % rname, markers is None or all(m is None for m in markers))
+                    continue
+                want = [None] * (nseg + 1)
+                hits = [k for k in range(1, nseg) if bpsi[k] is not None and bpsi[k] == sep_psi(xp)]
+                env.claim("one_radial_boundary_lies_on_the_xpoint's_separatrix:%s" % rname, len(hits) == 1)
+                if len(hits) == 1:
+                    want[hits[0]] = xp
+                env.claim("xpoint_marked_at_its_own_separatrix_boundary_only:%s.%s" % (rname, end),
+                          markers is not None and len(markers) == nseg + 1 and all(m is w for m, w in zip(markers, want)))
+    return body
+
+
 def _mk(kind, guards, suo=False):
     def body(env):
         if kind in ("circular_core", "circular_limiter"):
@@ -576,6 +633,12 @@ for _g in (0, 1, 2, 3):
                           stubs=["findRoots_1d", "wallPosition", "wallVector", "getRefined -> identity", "getSmoothMonotonicGridFunc/make1dGrid -> placeholder", "MeshRegion -> record"],
                           bounds="nx_core, nx_sol and the four leg ny >= 1 symbolic (unbounded), y_boundary_guards=%d" % _g))
 
+for _k in ("lsn", "usn", "cdn", "ldn", "udn"):
+    for _ps in (1.0, -1.0):
+        OBLIGATIONS.append(Ob("xpoint_markers_%s%s" % (_k, "" if _ps > 0 else "_psi_decreasing"), _mk_xpoint_markers(_k, _ps), tier="quick", family="descriptor",
+                              encodes=["hypnotoad.cases.tokamak:TokamakEquilibrium.describeSingleNull", "hypnotoad.cases.tokamak:TokamakEquilibrium.describeDoubleNull"],
+                              desc="each region end that touches an X-point carries that X-point's marker at the radial boundary on its separatrix and nowhere else",
+                              bounds="real descriptors with symbolic sizes; %s" % _k, max_paths=400))
 import harness.c01 as _c01  # noqa: E402
 OBLIGATIONS.append(Ob("shared_y_edge_points_coincide", _c01._mk_rzboundary(True), tier="quick", family="getRZBoundary",
                       desc="after getRZBoundary the points on the y-edge shared with the upper neighbour coincide with the neighbour's (both coordinates, ylow and corners)",
